@@ -79,6 +79,43 @@ theorem foldl_modT_bufs {γ} (xs : List γ) (idx : γ → Nat) (f : γ → Tens 
   | nil => rfl
   | cons c cs ih => simp only [List.foldl_cons]; rw [ih]; rfl
 
+/-! `startOver` only drops the lingering `base` link of the terminal tensor -/
+@[simp] theorem startOver_bufs (h : Heap) (L : Nat) : (startOver h L).bufs = h.bufs := by
+  unfold startOver; split <;> rfl
+
+@[simp] theorem startOver_ops (h : Heap) (L : Nat) : (startOver h L).ops = h.ops := by
+  unfold startOver; split <;> rfl
+
+theorem startOver_field {β} (h : Heap) (L t : Nat) (π : Tens → β)
+    (hπ : ∀ x : Tens, π { x with base := none } = π x) : π ((startOver h L).t t) = π (h.t t) := by
+  unfold startOver
+  split
+  · exact t_modT_field h L t _ π hπ
+  · rfl
+
+@[simp] theorem startOver_grad (h : Heap) (L t : Nat) : ((startOver h L).t t).grad = (h.t t).grad :=
+  startOver_field h L t (·.grad) (fun _ => rfl)
+
+@[simp] theorem startOver_data (h : Heap) (L t : Nat) : ((startOver h L).t t).data = (h.t t).data :=
+  startOver_field h L t (·.data) (fun _ => rfl)
+
+@[simp] theorem startOver_const (h : Heap) (L t : Nat) : ((startOver h L).t t).const = (h.t t).const :=
+  startOver_field h L t (·.const) (fun _ => rfl)
+
+@[simp] theorem startOver_creator (h : Heap) (L t : Nat) : ((startOver h L).t t).creator = (h.t t).creator :=
+  startOver_field h L t (·.creator) (fun _ => rfl)
+
+@[simp] theorem startOver_op (h : Heap) (L f : Nat) : (startOver h L).op f = h.op f := by
+  unfold startOver; split <;> rfl
+
+@[simp] theorem startOver_next (h : Heap) (L : Nat) : (startOver h L).next = h.next := by
+  unfold startOver; split <;> rfl
+
+/-- a tensor that still has its creator, or has no base, is left exactly as it is -/
+theorem startOver_id (h : Heap) (L : Nat) (hL : ¬ ((h.t L).base.isSome ∧ (h.t L).creator.isNone)) :
+    startOver h L = h := by
+  unfold startOver; rw [if_neg hL]
+
 /-- reading `.grad` only ever refreshes `_view_grad` caches -/
 theorem gradPropObj_frame (fuel : Nat) : ∀ (h : Heap) (t : Nat),
     (gradPropObj fuel h t).1.bufs = h.bufs ∧ (gradPropObj fuel h t).1.next = h.next ∧
